@@ -127,6 +127,11 @@ var c08Zoo = []struct{ name, patch, src string }{
 	{"add-import-and-change-decl-no-imports", "@@\n@@\n+import \"context\"\n\n-func last() {\n+func last(ctx context.Context) {\n   ...\n }\n", "package a\n\nfunc first() {}\n\nfunc last() {\n\tprintln()\n}\n"},
 	{"context-line-without-leading-blank", "@@\n@@\n... := foo()\n+bar()\n", "package a\n\nfunc b() {\n\tx := foo()\n}\n"},
 	{"dots-in-column-one-both-sides", "@@\n@@\n... := foo(...)\n+..., err := foo(...)\n", "package a\n\nfunc b() {\n\tx := foo()\n}\n"},
+	{"import-path-is-a-version", "@@\n@@\n+import \"v2\"\n\n-vfUse()\n+v2.Use()\n", "package a\n\nfunc f() {\n\tvfUse()\n}\n"},
+	{"import-path-ends-in-version", "@@\n@@\n-import \"example.com/foo/v2\"\n+import \"example.com/foo/v3\"\n\n-foo.Do()\n+foo.Do(1)\n", "package a\n\nimport \"example.com/foo/v2\"\n\nfunc f() {\n\tfoo.Do()\n}\n"},
+	{"import-path-gopkg-in", "@@\n@@\n-import \"gopkg.in/yaml.v2\"\n+import \"gopkg.in/yaml.v3\"\n\n yaml.Marshal(nil)\n", "package a\n\nimport \"gopkg.in/yaml.v2\"\n\nfunc f() {\n\tyaml.Marshal(nil)\n}\n"},
+	{"import-path-single-letter-and-dots", "@@\n@@\n-import \"v3\"\n\n-v3.X\n+1\n", "package a\n\nimport \"v3\"\n\nvar _ = v3.X\n"},
+	{"import-path-odd", "@@\n@@\n+import \"a/b/\"\n\n-vfUse()\n+b.Use()\n", "package a\n\nfunc f() {\n\tvfUse()\n}\n"},
 	{"named-change", "@@ first @@\nvar x expression\n@@\n-vfA(x)\n+vfB(x)\n", "package a\n\nfunc f() {\n\tvfA(1)\n}\n"},
 }
 
